@@ -55,72 +55,72 @@ private theorem same_of_key {os : List Obj} (hn : DistinctKeys os) {x o : Obj} (
 /-- Every resource of the new manifest exists afterwards, and -- when the patch is computed
 against the live object -- with every field, label and annotation the manifest specifies,
 whatever the live object looked like before. -/
-theorem update_targets_present (force three : Bool) (original target : List Obj) (s : Store)
-    (hn : DistinctKeys target) (hok : (update force three original target s).err = false) :
-    ∀ t ∈ target, ∃ o, (update force three original target s).store.get? t.key = some o ∧
+theorem update_targets_present (rej : List String) (force three : Bool) (original target : List Obj) (s : Store)
+    (hn : DistinctKeys target) (hok : (updateR rej force three original target s).err = false) :
+    ∀ t ∈ target, ∃ o, (updateR rej force three original target s).store.get? t.key = some o ∧
       (fullMerge force three t = true → o.covers t) := by
   intro t ht
-  unfold update at hok ⊢
+  unfold updateR at hok ⊢
   simp only at hok ⊢
   split at hok
   · rename_i he; rw [he] at hok; cases hok
   · rename_i he
     simp only [he, Bool.false_eq_true, if_false]
-    have he' : (updateTargets force three original target { store := s, log := [] }).err = false := by
+    have he' : (updateTargets force three original target { store := s, log := [], rej := rej }).err = false := by
       simpa using he
     obtain ⟨o, ho, hc⟩ := updateTargets_present force three original target _ hn he' t ht
     refine ⟨o, ?_, hc⟩
     rcases deleteRemoved_store target original
-      (updateTargets force three original target { store := s, log := [] }) t.key with h | h
+      (updateTargets force three original target { store := s, log := [], rej := rej }) t.key with h | h
     · rw [h]; exact ho
     · rw [find_isSome_of_mem ht] at h; cases h.2.2
 
 /-- Every resource of the previous manifest that the new one drops is gone, unless the live
 object carries the keep policy -- in which case it is left exactly as it was. -/
-theorem update_removed_deleted (force three : Bool) (original target : List Obj) (s : Store)
-    (hok : (update force three original target s).err = false) :
+theorem update_removed_deleted (rej : List String) (force three : Bool) (original target : List Obj) (s : Store)
+    (hok : (updateR rej force three original target s).err = false) :
     ∀ o ∈ original, o.key ∉ keys target →
-      (update force three original target s).store.get? o.key = none ∨
+      (updateR rej force three original target s).store.get? o.key = none ∨
       ∃ live, s.get? o.key = some live ∧ keepLive live = true ∧
-        (update force three original target s).store.get? o.key = some live := by
+        (updateR rej force three original target s).store.get? o.key = some live := by
   intro o ho hk
-  unfold update at hok ⊢
+  unfold updateR at hok ⊢
   simp only at hok ⊢
   split at hok
   · rename_i he; rw [he] at hok; cases hok
   · rename_i he
     simp only [he, Bool.false_eq_true, if_false]
-    have hf := updateTargets_frame force three original target { store := s, log := [] } o.key hk
+    have hf := updateTargets_frame force three original target { store := s, log := [], rej := rej } o.key hk
     rcases deleteRemoved_done target original _ o ho (find_isSome_false_of_not_mem hk) with h | ⟨live, h1, h2, h3⟩
     · exact Or.inl h
     · exact Or.inr ⟨live, by rw [← hf]; exact h1, h2, h3⟩
 
 /-- No object outside the two manifests is created, changed or deleted -- whether or not the
 operation succeeds. -/
-theorem update_frame (force three : Bool) (original target : List Obj) (s : Store) (k : String)
+theorem update_frame (rej : List String) (force three : Bool) (original target : List Obj) (s : Store) (k : String)
     (ht : k ∉ keys target) (ho : k ∉ keys original) :
-    (update force three original target s).store.get? k = s.get? k := by
-  unfold update
+    (updateR rej force three original target s).store.get? k = s.get? k := by
+  unfold updateR
   simp only
   split
   · exact updateTargets_frame _ _ _ _ _ _ ht
   · rcases deleteRemoved_store target original
-      (updateTargets force three original target { store := s, log := [] }) k with h | h
+      (updateTargets force three original target { store := s, log := [], rej := rej }) k with h | h
     · rw [h]; exact updateTargets_frame _ _ _ _ _ _ ht
     · exact absurd h.2.1 ho
 
 /-- ... and no request at all is made about such an object. -/
-theorem update_requests_confined (force three : Bool) (original target : List Obj) (s : Store) :
-    ∀ e ∈ (update force three original target s).log, e.key ∈ keys target ∨ e.key ∈ keys original := by
+theorem update_requests_confined (rej : List String) (force three : Bool) (original target : List Obj) (s : Store) :
+    ∀ e ∈ (updateR rej force three original target s).log, e.key ∈ keys target ∨ e.key ∈ keys original := by
   intro e he
-  unfold update at he
+  unfold updateR at he
   simp only at he
-  obtain ⟨e1, h1, p1⟩ := updateTargets_log force three original target { store := s, log := [] }
+  obtain ⟨e1, h1, p1⟩ := updateTargets_log force three original target { store := s, log := [], rej := rej }
   split at he
   · rw [h1] at he
     exact Or.inl (p1 e (by simpa using he)).1
   · obtain ⟨e2, h2, p2⟩ := deleteRemoved_log target original
-      (updateTargets force three original target { store := s, log := [] })
+      (updateTargets force three original target { store := s, log := [], rej := rej })
     rw [h2, h1] at he
     simp only [List.nil_append] at he
     rcases List.mem_append.mp he with h | h
@@ -146,9 +146,9 @@ theorem upgrade_targets_present (rel ns : String) (to force : Bool) (current tar
     have hn' : DistinctKeys (target.map (stamp rel ns)) := by
       unfold DistinctKeys keys at hn ⊢
       simpa [List.map_map, Function.comp_def, stamp_key] using hn
-    have hok' : (update force false (current ++ adopted) (target.map (stamp rel ns)) s).err = false := by
+    have hok' : (updateR [] force false (current ++ adopted) (target.map (stamp rel ns)) s).err = false := by
       simpa using hok
-    obtain ⟨o, ho, hc⟩ := update_targets_present force false (current ++ adopted) (target.map (stamp rel ns)) s
+    obtain ⟨o, ho, hc⟩ := update_targets_present [] force false (current ++ adopted) (target.map (stamp rel ns)) s
       hn' hok' (stamp rel ns t) (List.mem_map_of_mem ht)
     exact ⟨o, ho, fun hm => hc (by simpa [fullMerge, stamp_typed] using hm)⟩
 
@@ -167,11 +167,11 @@ theorem upgrade_removed_deleted (rel ns : String) (to force : Bool) (current tar
   · simp at hok
   · rename_i adopted log hp
     simp only [Bool.false_eq_true, if_false] at hok ⊢
-    have hok' : (update force false (current ++ adopted) (target.map (stamp rel ns)) s).err = false := by
+    have hok' : (updateR [] force false (current ++ adopted) (target.map (stamp rel ns)) s).err = false := by
       simpa using hok
     have hk' : o.key ∉ keys (target.map (stamp rel ns)) := by
       simpa [keys, List.map_map, Function.comp_def, stamp_key] using hk
-    exact update_removed_deleted force false (current ++ adopted) _ s hok' o
+    exact update_removed_deleted [] force false (current ++ adopted) _ s hok' o
       (List.mem_append_left _ ho) hk'
 
 /-- An upgrade -- successful, failed, refused or dry-run -- never touches an object that is
@@ -189,7 +189,7 @@ theorem upgrade_frame (rel ns : String) (to force dry : Bool) (current target : 
     · have ha := preflight_adopted _ _ _ _ _ _ (by rw [hp])
       have ht' : k ∉ keys (target.map (stamp rel ns)) := by
         simpa [keys, List.map_map, Function.comp_def, stamp_key] using ht
-      apply update_frame _ _ _ _ _ _ ht'
+      apply update_frame [] _ _ _ _ _ _ ht'
       intro hm
       rcases List.mem_append.mp (by simpa [keys] using hm : k ∈ keys current ++ keys adopted) with h | h
       · exact hc h
@@ -212,8 +212,8 @@ theorem rollback_targets_present (rel ns : String) (force : Bool) (current targe
   have hn' : DistinctKeys (target.map (stamp rel ns)) := by
     unfold DistinctKeys keys at hn ⊢
     simpa [List.map_map, Function.comp_def, stamp_key] using hn
-  have hok' : (update force false current (target.map (stamp rel ns)) s).err = false := by simpa using hok
-  obtain ⟨o, ho, hc⟩ := update_targets_present force false current (target.map (stamp rel ns)) s
+  have hok' : (updateR [] force false current (target.map (stamp rel ns)) s).err = false := by simpa using hok
+  obtain ⟨o, ho, hc⟩ := update_targets_present [] force false current (target.map (stamp rel ns)) s
     hn' hok' (stamp rel ns t) (List.mem_map_of_mem ht)
   exact ⟨o, ho, fun hm => hc (by simpa [fullMerge, stamp_typed] using hm)⟩
 
@@ -226,10 +226,10 @@ theorem rollback_removed_deleted (rel ns : String) (force : Bool) (current targe
   intro o ho hk
   unfold rollbackCluster at hok ⊢
   simp only at hok ⊢
-  have hok' : (update force false current (target.map (stamp rel ns)) s).err = false := by simpa using hok
+  have hok' : (updateR [] force false current (target.map (stamp rel ns)) s).err = false := by simpa using hok
   have hk' : o.key ∉ keys (target.map (stamp rel ns)) := by
     simpa [keys, List.map_map, Function.comp_def, stamp_key] using hk
-  exact update_removed_deleted force false current _ s hok' o ho hk'
+  exact update_removed_deleted [] force false current _ s hok' o ho hk'
 
 theorem rollback_frame (rel ns : String) (force : Bool) (current target : List Obj) (s : Store) (k : String)
     (ht : k ∉ keys target) (hc : k ∉ keys current) :
@@ -238,7 +238,7 @@ theorem rollback_frame (rel ns : String) (force : Bool) (current target : List O
   simp only
   have ht' : k ∉ keys (target.map (stamp rel ns)) := by
     simpa [keys, List.map_map, Function.comp_def, stamp_key] using ht
-  exact update_frame _ _ _ _ _ _ ht' hc
+  exact update_frame [] _ _ _ _ _ _ ht' hc
 
 /-! ### install -/
 
@@ -263,11 +263,12 @@ theorem install_targets_present (rel ns : String) (to force : Bool) (manifest : 
     · refine ⟨stamp rel ns t, ?_, fun _ => Obj.covers_refl _⟩
       have := Store.get?_foldl_put_mem (manifest.map (stamp rel ns)) s (stamp rel ns t)
         (List.mem_map_of_mem ht) hn'
+      rw [filter_norej]
       simpa [stamp_key] using this
     · rename_i hne
       simp only [hne, Bool.false_eq_true, if_false] at hok
-      have hok' : (update force to adopted (manifest.map (stamp rel ns)) s).err = false := by simpa using hok
-      obtain ⟨o, ho, hc⟩ := update_targets_present force to adopted (manifest.map (stamp rel ns)) s
+      have hok' : (updateR [] force to adopted (manifest.map (stamp rel ns)) s).err = false := by simpa using hok
+      obtain ⟨o, ho, hc⟩ := update_targets_present [] force to adopted (manifest.map (stamp rel ns)) s
         hn' hok' (stamp rel ns t) (List.mem_map_of_mem ht)
       exact ⟨o, ho, fun hm => hc (by simpa [fullMerge, stamp_typed] using hm)⟩
 
@@ -286,9 +287,9 @@ theorem install_frame (rel ns : String) (to force dry : Bool) (manifest : List O
     split
     · rfl
     · split
-      · exact Store.get?_foldl_put_frame _ _ _ hk'
+      · rw [filter_norej]; exact Store.get?_foldl_put_frame _ _ _ hk'
       · have ha := preflight_adopted _ _ _ _ _ _ (by rw [hp])
-        apply update_frame _ _ _ _ _ _ hk'
+        apply update_frame [] _ _ _ _ _ _ hk'
         intro hm
         apply hk'
         rw [ha] at hm
